@@ -41,6 +41,8 @@ def configs(tier):
     for sizes, gt in [((1, 1), None), ((2, 1), None), ((1, 1, 1), [0, 1])]:
         out.append(dict(key=f"measured,ref={sizes},gt={gt}", mode="measured", sizes=list(sizes), gt=gt, maxu=1,
                         cost=50 * 9 ** (len(gt) if gt else len(sizes))))
+    # the same sampler object initialised twice on the same continuum object (other ground truth, continuum changed in between)
+    out.append(dict(key="measured,re-initialised,ref=(1, 1, 1),gt=[0, 1]", mode="measured", sizes=[1, 1, 1], gt=[0, 1], maxu=1, reinit=True, cost=5000))
     if tier == "thorough":
         out.append(dict(key="custom,annotators=3,weights,maxu=1", mode="custom", nann=3, weights=True, maxu=1, cost=20000))
         out.append(dict(key="custom,annotators=2,weights,maxu=2", mode="custom", nann=2, weights=True, maxu=2, cost=20000))
@@ -81,6 +83,13 @@ def harness(cfg, ns):
             inputs = [v[kk] for v in info.values() for kk in ("start", "end")]
             gt = None if cfg["gt"] is None else [ANN[i] for i in cfg["gt"]]
             gt_names = [ANN[i] for i in (range(len(sizes)) if cfg["gt"] is None else cfg["gt"])]
+            if cfg.get("reinit"):
+                # first initialisation: all annotators, and the continuum does not hold its last unit yet
+                last_a = [a for a in c._annotations.keys()][-1]
+                last_u = list(c._annotations[last_a])[-1]
+                c.remove(last_a, last_u)
+                s.init_sampling(c, None)
+                c.add(last_a, last_u.segment, last_u.annotation)
             s.init_sampling(c, gt)
             cats = sorted(set(labels))
             durs = [v["end"] - v["start"] for (a, j), v in sorted(info.items())]
@@ -97,7 +106,8 @@ def harness(cfg, ns):
                     draws.append(["normal", common.frs(mval(m, rec[3]))])
                 elif rec[0] == "choice":
                     draws.append(["choice", rec[3]])
-            case = dict(kind="statistical", mode=cfg["mode"], draws=draws, gt=cfg.get("gt"), nann=cfg.get("nann"), weights=cfg.get("weights"))
+            case = dict(kind="statistical", mode=cfg["mode"], draws=draws, gt=cfg.get("gt"), nann=cfg.get("nann"), weights=cfg.get("weights"),
+                        reinit=bool(cfg.get("reinit")))
             if cfg["mode"] == "custom":
                 case["params"] = {k: common.frs(mval(m, v)) for k, v in P.items()}
             else:
@@ -123,69 +133,66 @@ def harness(cfg, ns):
                     raise core.Cut("duration-redraws>%d" % MAXREDRAW)
             return v
         rng.normal = normal
-        smp = s.sample_from_continuum
+        ADDS = []
+        orig_add = co.Continuum.add
+
+        def spy_add(self, annotator, segment, annotation=None):
+            ADDS.append((annotator, segment.start, segment.end, annotation))
+            return orig_add(self, annotator, segment, annotation)
+        co.Continuum.add = spy_add
+        try:
+            smp = s.sample_from_continuum
+        finally:
+            co.Continuum.add = orig_add
         ctx.notes["inputs"] = inputs + [r[3] for r in rng.log if r[0] == "normal"]
         obls = [Obl("sample-non-empty", smp.num_units >= 1 and bool(smp), rz),
                 Obl("annotators==ground-truth", list(smp.annotators) == sorted(gt_names), rz)]
         for a, u in smp:
             obls.append(Obl("unit-longer-than-precision", SymBool(lift(u.segment.end) - lift(u.segment.start) > lift(PREC)), rz))
             obls.append(Obl("label-in-categories", u.annotation in cats, rz))
-        # ---- data-flow, read off the RNG log
+        # ---- data-flow, read off the RNG log and the sequence of Continuum.add calls (the order of the draws inside one unit is
+        # not prescribed by the property, only which law each quantity is drawn from)
         log = list(rng.log)
-        pos = 0
-        generated = {}
-        ok_shape = True
+        normals = [r for r in log if r[0] == "normal"]
+        choices = [r for r in log if r[0] == "choice"]
+        # (membership by identity: comparing log records with == would compare symbolic numbers and fork)
+        nb_draws = [r for r in normals if _is(r[1], s._avg_nb_units_per_annotator, r[2], s._std_nb_units_per_annotator)]
+        used = {id(r) for r in nb_draws}
+        gap_draws = [r for r in normals if id(r) not in used and _is(r[1], s._avg_gap, r[2], s._std_gap)]
+        used |= {id(r) for r in gap_draws}
+        dur_draws = [r for r in normals if id(r) not in used and _is(r[1], s._avg_unit_duration, r[2], s._std_unit_duration)]
+        obls.append(Obl("every-normal-draw-uses-one-of-the-three-documented-parameter-pairs", len(nb_draws) + len(gap_draws) + len(dur_draws) == len(normals), rz))
+        obls.append(Obl("one-count-draw-per-annotator", len(nb_draws) == len(gt_names), rz))
+        for ch in choices:
+            obls.append(Obl("label-draw-uses-(categories,weights)", [str(x) for x in ch[1]] == cats and _weights_ok(ch[2], weights), rz))
+        per_ann = {a: [x for x in ADDS if x[0] == a] for a in sorted(gt_names)}
+        empty_so_far = True
         for ai, a in enumerate(sorted(gt_names)):
-            if pos >= len(log) or log[pos][0] != "normal":
-                ok_shape = False
-                break
-            _, mu, sd, v = log[pos]
-            pos += 1
-            obls.append(Obl("count-draw-uses-(avg_nb,std_nb)", core.sym_and(core.eq(mu, s._avg_nb_units_per_annotator), core.eq(sd, s._std_nb_units_per_annotator)), rz))
-            # number of gap draws that follow = planned unit count
-            k = 0
+            k = len(per_ann[a])
+            if ai < len(nb_draws):
+                want = abs(core.s_int(nb_draws[ai][3]))
+                if empty_so_far:
+                    want = core.s_max(1, want)
+                obls.append(Obl("unit-count==|trunc(count draw)|(>=1 while empty)", core.eq(want, k), rz))
+            if k:
+                empty_so_far = False
             last = 0
-            units = []
-            while pos < len(log) and log[pos][0] == "normal" and _is(log[pos][1], s._avg_gap, log[pos][2], s._std_gap) and \
-                    not (_is(log[pos][1], s._avg_nb_units_per_annotator, log[pos][2], s._std_nb_units_per_annotator) and _count_next(log, pos, s)):
-                gap = log[pos][3]
-                pos += 1
-                durs_ = []
-                while pos < len(log) and log[pos][0] == "normal" and _is(log[pos][1], s._avg_unit_duration, log[pos][2], s._std_unit_duration) \
-                        and (not durs_ or _redraw_possible(log, pos)):
-                    durs_.append(log[pos][3])
-                    pos += 1
-                    if pos < len(log) and log[pos][0] == "choice":
-                        break
-                if not durs_ or pos >= len(log) or log[pos][0] != "choice":
-                    ok_shape = False
-                    break
-                ch = log[pos]
-                pos += 1
-                start = last + gap
-                end = start + abs(durs_[-1])
-                units.append((start, end, ch[1][ch[3]]))
-                obls.append(Obl("label-draw-uses-(categories,weights)", [str(x) for x in ch[1]] == cats and _weights_ok(ch[2], weights), rz))
-                for dd in durs_[:-1]:
-                    obls.append(Obl("redrawn-only-when-too-short", SymBool(lift(abs(dd)) <= lift(PREC)), rz))
-                last = end
-                k += 1
-            generated[a] = units
-            trunc = core.s_int(v)
-            want = abs(trunc)
-            if ai == 0 or not any(generated[b] for b in sorted(gt_names)[:ai]):
-                want = core.s_max(1, want)
-            obls.append(Obl("unit-count==|trunc(count draw)|(>=1 while empty)", core.eq(want, k), rz))
-            if not ok_shape:
-                break
-        obls.append(Obl("rng-call-sequence-has-the-documented-shape", ok_shape and pos == len(log), rz))
-        if ok_shape:
-            for a in sorted(gt_names):
-                got = [(u.segment.start, u.segment.end, u.annotation) for u in smp._annotations[a]]
-                for (st, en, lab) in generated[a]:
-                    ex = z3.Or(*[z3.And(lift(g[0]) == lift(st), lift(g[1]) == lift(en), z3.BoolVal(g[2] == lab)) for g in got]) if got else z3.BoolVal(False)
-                    obls.append(Obl("unit==(prev end + gap draw, + |duration draw|, label draw)", SymBool(ex), rz))
-                obls.append(Obl("no-unit-beyond-the-generated-ones", len(got) <= len(generated[a]), rz))
+            for (_, st, en, lab) in per_ann[a]:
+                obls.append(Obl("start==previous end + a draw of normal(avg_gap, std_gap)",
+                                SymBool(z3.Or(*[lift(st) == lift(last) + lift(g[3]) for g in gap_draws]) if gap_draws else z3.BoolVal(False)), rz))
+                obls.append(Obl("duration==|a draw of normal(avg_dur, std_dur)|",
+                                SymBool(z3.Or(*[lift(en) - lift(st) == lift(abs(d_[3])) for d_ in dur_draws]) if dur_draws else z3.BoolVal(False)), rz))
+                obls.append(Obl("label==a draw of choice(categories, weights)", any(str(ch[1][ch[3]]) == str(lab) for ch in choices), rz))
+                last = en
+        obls.append(Obl("as-many-gap-and-label-draws-as-units", len(gap_draws) == len(ADDS) == len(choices), rz))
+        obls.append(Obl("every-duration-draw-is-used-or-too-short", SymBool(z3.And(*[z3.Or(lift(abs(d_[3])) <= lift(PREC),
+                        *[lift(x[2]) - lift(x[1]) == lift(abs(d_[3])) for x in ADDS]) for d_ in dur_draws] + [z3.BoolVal(True)])), rz))
+        for a in sorted(gt_names):
+            got = [(u.segment.start, u.segment.end, u.annotation) for u in smp._annotations[a]]
+            obls.append(Obl("no-unit-beyond-the-generated-ones", len(got) <= len(per_ann[a]), rz))
+            for (_, st, en, lab) in per_ann[a]:
+                ex = z3.Or(*[z3.And(lift(g[0]) == lift(st), lift(g[1]) == lift(en), z3.BoolVal(g[2] == lab)) for g in got]) if got else z3.BoolVal(False)
+                obls.append(Obl("every-generated-unit-is-in-the-sample", SymBool(ex), rz))
         if E.get("measured"):
             obls.append(Obl("measured:avg_nb==mean-units-per-annotator", core.approx(s._avg_nb_units_per_annotator, P["avg_nb"]), rz))
             obls.append(Obl("measured:avg_dur==mean-duration", core.eq(s._avg_unit_duration, P["avg_dur"]), rz))
@@ -268,6 +275,12 @@ def replay(case):
     else:
         c = common.real_continuum(dict(units=case["units"], annotators=ANN[:len(case["sizes"])]))
         gt = None if case["gt"] is None else [ANN[i] for i in case["gt"]]
+        if case.get("reinit"):
+            last_a = list(c.annotators)[-1]
+            last_u = list(c._annotations[last_a])[-1]
+            c.remove(last_a, last_u)
+            s.init_sampling(c, None)
+            c.add(last_a, last_u.segment, last_u.annotation)
         s.init_sampling(c, gt)
         cats = list(c.categories)
         gt = gt or list(c.annotators)
@@ -279,8 +292,14 @@ def replay(case):
                  avg_gap=float(s._avg_gap), std_gap=float(s._std_gap))
         weights = [labs.count(x) / len(labs) for x in cats]
     bad = []
+    adds = []
+    orig_add = pa.Continuum.add
+
+    def spy_add(self, annotator, segment, annotation=None):
+        adds.append((annotator, segment.start, segment.end, annotation))
+        return orig_add(self, annotator, segment, annotation)
     try:
-        with mock.patch("numpy.random.normal", normal), mock.patch("numpy.random.choice", choice):
+        with mock.patch("numpy.random.normal", normal), mock.patch("numpy.random.choice", choice), mock.patch.object(pa.Continuum, "add", spy_add):
             smp = s.sample_from_continuum
     except RuntimeError as ex:
         return dict(reproduced=None, detail=str(ex))
@@ -295,55 +314,49 @@ def replay(case):
             bad.append(f"unit {u} not longer than the segment precision")
         if u.annotation not in cats:
             bad.append(f"label {u.annotation!r} not a category")
-    # documented generative process on the same draw sequence
-    it = iter(calls)
-
+    # the documented laws, checked on what the code actually did (order of the draws inside one unit is free)
     def close(a, b):
         return abs(a - b) <= 1e-9 * max(1.0, abs(a), abs(b))
+    normals = [c_ for c_ in calls if c_[0] == "normal"]
+    chs = [c_ for c_ in calls if c_[0] == "choice"]
 
-    def nxt(kind, mu=None, sd=None):
-        try:
-            cll = next(it)
-        except StopIteration:
-            bad.append(f"documented process needs another {kind} draw, the code made none")
-            raise
-        if cll[0] != kind:
-            bad.append(f"documented process expects a {kind} draw, the code made a {cll[0]} draw")
-            raise StopIteration
-        if kind == "normal" and not (close(cll[1], mu) and close(cll[2], sd)):
-            bad.append(f"normal drawn with ({cll[1]}, {cll[2]}), documented parameters ({mu}, {sd})")
-        if kind == "choice":
-            if cll[1] != [str(x) for x in cats]:
-                bad.append(f"label drawn from {cll[1]}, categories are {cats}")
-            if (weights is None) != (cll[2] is None) or (weights is not None and any(not close(a, b) for a, b in zip(cll[2], weights))):
-                bad.append(f"label drawn with weights {cll[2]}, documented weights {weights}")
-        return cll[3]
-    expected = {}
-    try:
-        empty = True
-        for a in sorted(gt):
-            k = abs(int(nxt("normal", P["avg_nb"], P["std_nb"])))
+    def is_(c_, mu, sd):
+        return close(c_[1], mu) and close(c_[2], sd)
+    nb = [c_ for c_ in normals if is_(c_, P["avg_nb"], P["std_nb"])]
+    gaps = [c_ for c_ in normals if is_(c_, P["avg_gap"], P["std_gap"]) and c_ not in nb]
+    durs = [c_ for c_ in normals if is_(c_, P["avg_dur"], P["std_dur"]) and c_ not in nb and c_ not in gaps]
+    other = [c_ for c_ in normals if c_ not in nb and c_ not in gaps and c_ not in durs]
+    if other:
+        bad.append(f"normal drawn with ({other[0][1]}, {other[0][2]}): none of the documented parameter pairs "
+                   f"count ({P['avg_nb']}, {P['std_nb']}), gap ({P['avg_gap']}, {P['std_gap']}), duration ({P['avg_dur']}, {P['std_dur']})")
+    if len(nb) != len(gt):
+        bad.append(f"{len(nb)} unit-count draws for {len(gt)} annotators")
+    for c_ in chs:
+        if c_[1] != [str(x) for x in cats]:
+            bad.append(f"label drawn from {c_[1]}, categories are {cats}")
+        if (weights is None) != (c_[2] is None) or (weights is not None and any(not close(a, b) for a, b in zip(c_[2], weights))):
+            bad.append(f"label drawn with weights {c_[2]}, documented weights {weights}")
+    empty = True
+    for ai, a in enumerate(sorted(gt)):
+        mine = [x for x in adds if x[0] == a]
+        if ai < len(nb):
+            k = abs(int(nb[ai][3]))
             if empty:
                 k = max(1, k)
-            last = 0.0
-            us = set()
-            for _ in range(k):
-                start = last + nxt("normal", P["avg_gap"], P["std_gap"])
-                end = start + abs(nxt("normal", P["avg_dur"], P["std_dur"]))
-                while end - start <= PREC:
-                    end = start + abs(nxt("normal", P["avg_dur"], P["std_dur"]))
-                lab = nxt("choice")
-                us.add((start, end, lab))
-                last = end
-                empty = False
-            expected[a] = us
-        if next(it, None) is not None:
-            bad.append("the code made more draws than the documented process")
-    except StopIteration:
-        pass
-    if not bad:
-        for a in sorted(gt):
-            got = {(u.segment.start, u.segment.end, u.annotation) for u in smp._annotations[a]}
-            if got != expected.get(a):
-                bad.append(f"{a}: units {sorted(got, key=str)} differ from the documented process {sorted(expected.get(a, []), key=str)}")
+            if k != len(mine):
+                bad.append(f"{a}: {len(mine)} units generated, |trunc(count draw {nb[ai][3]})| = {k}")
+        if mine:
+            empty = False
+        last = 0.0
+        for (_, st, en, lab) in mine:
+            if not any(close(st, last + g[3]) for g in gaps):
+                bad.append(f"{a}: start {st} is not previous end {last} + a gap draw {[g[3] for g in gaps]}")
+            if not any(close(en - st, abs(d_[3])) for d_ in durs):
+                bad.append(f"{a}: duration {en - st} is not |a duration draw| {[d_[3] for d_ in durs]}")
+            if not any(c_[3] == str(lab) for c_ in chs):
+                bad.append(f"{a}: label {lab!r} was not drawn")
+            last = en
+        got = {(u.segment.start, u.segment.end, u.annotation) for u in smp._annotations[a]} if a in smp._annotations else set()
+        if not got <= {(st, en, lab) for (_, st, en, lab) in mine} or len(got) > len(mine):
+            bad.append(f"{a}: the sample holds units that were not generated")
     return dict(reproduced=bool(bad), detail="; ".join(bad[:3])[:600])
